@@ -29,7 +29,7 @@ def target (c : Ctx) : Nat → Elem → Except Err Elem
   | 0, _ => .error .circular
   | fuel + 1, e =>
     if e.name == cs!"use" || e.name == cs!"reuse" then
-      match e.getAttr cs!"href" with
+      match (e.getAttr cs!"href").orElse (fun _ => e.getAttr cs!"xlink:href") with
       | none => .error .missingAttr
       | some h =>
         match parseElref h with
@@ -645,7 +645,7 @@ def resolvePosition (c : Ctx) (e : Elem) : Except Err Elem := do
     else e)
   let p := e.toPosition
   let p ← (if e.name == cs!"use" then
-      match e.getAttr cs!"href" with
+      match (e.getAttr cs!"href").orElse (fun _ => e.getAttr cs!"xlink:href") with
       | some href => do
         let r ← parseElref href
         match c.get r with
